@@ -18,6 +18,7 @@ func init() {
 			"D2 snapshot/compaction commit order (tsm file synced before close, new files renamed before old ones are removed, directory synced, WAL segments and cache snapshot released only after FileStore.Replace returned nil, tombstone file synced before rename); " +
 			"D3 recovery order in Engine.Open; D4 the WAL tail typestate (a segment reopened for appending at a cached offset is not truncated afterwards through another descriptor); " +
 			"D5 frozen table of destructive file operations in tsm1; D6 the cache snapshot and the closed-segment list are taken in one critical section that excludes writers. " +
+			"D2 also: a retried cache snapshot (Cache.Snapshot can hand out the snapshot of a failed attempt again) releases no WAL segment. " +
 			"NOT decided: that replay reproduces the exact values, torn-tail arithmetic, file-system semantics of rename/fsync.",
 		RuleText:    "obligation = (rule, function, call site ordinal); paths from go/cfg refined by nil/bool facts; must-precede by reachability with the required event removed; error-outcome facts per call expression",
 		Assumptions: commonAssumptions,
